@@ -29,3 +29,14 @@ func VerifNewAccountCacheWithSizes(inner, stateL1, code int) (*AccountCache, err
 func (ac *AccountCache) VerifCacheLens() (int, int, int) {
 	return ac.innerAccountCache.Len(), ac.stateCache.Len(), ac.codeCache.Len()
 }
+
+// VerifYieldHook, when installed by an engine, is called at the yield points that /verif's build step
+// derives for FlushDirtyData and Commit (see cmd/verifctl/yields.go): the engine lets a concurrent
+// account-API reader run there.
+var VerifYieldHook func(site string, idx int, recv interface{})
+
+func verifYield(site string, idx int, recv interface{}) {
+	if h := VerifYieldHook; h != nil {
+		h(site, idx, recv)
+	}
+}
